@@ -20,9 +20,58 @@ import (
 
 type Leaf struct {
 	Name string
-	Val  func() any                    // value handed to slog.Any
-	JSON func(v voracle.JVal) string   // "" if v is an acceptable rendering
-	Text func() (string, bool)         // expected decoded text; ok=false: only "is one token" is required
+	Val  func() any                  // value handed to slog.Any
+	JSON func(v voracle.JVal) string // "" if v is an acceptable rendering
+	Text func() (string, bool)       // expected decoded text; ok=false: only "is one token" is required
+}
+
+// The statement of C13 says the tokens give back each attribute's value; for a string, an
+// error, a TextMarshaler, an integer or a bool that is a definite text. How a float, a
+// duration, a time, nil or a composite value is spelled is the handler's business: those are
+// compared by what they denote (textNum, textDur, textTime) or only required to be one token.
+type textIs func(got string) bool
+
+var textMatchers = map[string]textIs{}
+
+func textNum(name string, f float64) func() (string, bool) {
+	textMatchers[name] = func(got string) bool {
+		g, err := strconv.ParseFloat(got, 64)
+		return err == nil && (g == f || (math.IsNaN(f) && math.IsNaN(g)))
+	}
+	return func() (string, bool) { return strconv.FormatFloat(f, 'g', -1, 64), true }
+}
+
+func textDur(name string, d time.Duration) func() (string, bool) {
+	textMatchers[name] = func(got string) bool {
+		if g, err := time.ParseDuration(got); err == nil {
+			return g == d
+		}
+		g, err := strconv.ParseFloat(got, 64)
+		return err == nil && g == float64(d)
+	}
+	return func() (string, bool) { return d.String(), true }
+}
+
+func textTime(name string, t time.Time) func() (string, bool) {
+	textMatchers[name] = func(got string) bool {
+		g, err := time.Parse(time.RFC3339Nano, got)
+		return err == nil && !g.After(t) && t.Sub(g) < time.Second
+	}
+	return func() (string, bool) { return t.Format(time.RFC3339Nano), true }
+}
+
+func textOpen() (string, bool) { return "", false }
+
+// TextMatches reports whether got is an acceptable spelling of the leaf's value.
+func (l *Leaf) TextMatches(got string) (want string, ok bool) {
+	want, exact := l.Text()
+	if !exact {
+		return "", true
+	}
+	if m := textMatchers[l.Name]; m != nil {
+		return want + " (or another spelling of the same value)", m(got)
+	}
+	return want, got == want
 }
 
 // Sanitize is what any string must decode to: invalid UTF-8 bytes become U+FFFD.
@@ -79,7 +128,9 @@ func (okMarshaler) MarshalJSON() ([]byte, error) { return []byte(`{"m":[1,2],"s"
 
 type errMarshaler struct{}
 
-func (errMarshaler) MarshalJSON() ([]byte, error) { return nil, errors.New("marshal \"failed\"\n badly") }
+func (errMarshaler) MarshalJSON() ([]byte, error) {
+	return nil, errors.New("marshal \"failed\"\n badly")
+}
 
 type garbageMarshaler struct{}
 
@@ -122,8 +173,8 @@ var Leaves = []*Leaf{
 	{"int64-min", func() any { return int64(math.MinInt64) }, wantNum("-9223372036854775808"), text("-9223372036854775808")},
 	{"int64-max", func() any { return int64(math.MaxInt64) }, wantNum("9223372036854775807"), text("9223372036854775807")},
 	{"uint64-max", func() any { return uint64(math.MaxUint64) }, wantNum("18446744073709551615"), text("18446744073709551615")},
-	{"float-1.5", func() any { return 1.5 }, wantNum("1.5"), text("1.5")},
-	{"float-0", func() any { return 0.0 }, wantNum("0"), text("0")},
+	{"float-1.5", func() any { return 1.5 }, wantNum("1.5"), textNum("float-1.5", 1.5)},
+	{"float-0", func() any { return 0.0 }, wantNum("0"), textNum("float-0", 0)},
 	{"float-neg0", func() any { return math.Copysign(0, -1) }, func(v voracle.JVal) string {
 		if v.Kind != 'n' {
 			return "want a number"
@@ -133,18 +184,18 @@ var Leaves = []*Leaf{
 			return fmt.Sprintf("got %s, want zero", v)
 		}
 		return ""
-	}, text("-0")},
-	{"float-nan", func() any { return math.NaN() }, wantErrString, text("NaN")},
-	{"float-inf", func() any { return math.Inf(1) }, wantErrString, text("+Inf")},
-	{"float-neginf", func() any { return math.Inf(-1) }, wantErrString, text("-Inf")},
-	{"float-big", func() any { return 1e308 }, wantNum("1e308"), text("1e+308")},
+	}, textNum("float-neg0", 0)},
+	{"float-nan", func() any { return math.NaN() }, wantErrString, textNum("float-nan", math.NaN())},
+	{"float-inf", func() any { return math.Inf(1) }, wantErrString, textNum("float-inf", math.Inf(1))},
+	{"float-neginf", func() any { return math.Inf(-1) }, wantErrString, textNum("float-neginf", math.Inf(-1))},
+	{"float-big", func() any { return 1e308 }, wantNum("1e308"), textNum("float-big", 1e308)},
 	{"bool", func() any { return true }, func(v voracle.JVal) string {
 		if v.Kind != 'b' || !v.Bool {
 			return fmt.Sprintf("got %s, want true", v)
 		}
 		return ""
 	}, text("true")},
-	{"duration", func() any { return 1500 * time.Millisecond }, wantNum("1500000000"), text("1.5s")},
+	{"duration", func() any { return 1500 * time.Millisecond }, wantNum("1500000000"), textDur("duration", 1500*time.Millisecond)},
 	{"time", func() any { return FixedTime }, func(v voracle.JVal) string {
 		if v.Kind != 's' {
 			return "want a string"
@@ -154,35 +205,35 @@ var Leaves = []*Leaf{
 			return fmt.Sprintf("got %s, want the time %v", v, FixedTime)
 		}
 		return ""
-	}, text("2001-02-03T04:05:06Z")},
+	}, textTime("time", FixedTime)},
 	{"error", func() any { return errors.New("bad \"thing\"\nhappened") }, wantStr("bad \"thing\"\nhappened"), text("bad \"thing\"\nhappened")},
 	{"bytes", func() any { return []byte("hi\xff there") }, wantMarshal([]byte("hi\xff there")), text("hi\xff there")},
-	{"map", func() any { return map[string]int{"b": 2, "a": 1} }, wantMarshal(map[string]int{"b": 2, "a": 1}), text("map[a:1 b:2]")},
-	{"struct", func() any { return pair{7, "x<y>&\"z\""} }, wantMarshal(pair{7, "x<y>&\"z\""}), text("{7 x<y>&\"z\"}")},
-	{"marshaler-ok", func() any { return okMarshaler{} }, wantMarshal(okMarshaler{}), text("{}")},
-	{"marshaler-indented", func() any { return indentedMarshaler{} }, wantMarshal(indentedMarshaler{}), text("{}")},
-	{"rawmessage-multiline", func() any { return json.RawMessage("[1,\n 2]") }, wantMarshal(json.RawMessage("[1,\n 2]")), func() (string, bool) { return "", false }},
-	{"marshaler-err", func() any { return errMarshaler{} }, wantErrString, text("{}")},
-	{"marshaler-garbage", func() any { return garbageMarshaler{} }, wantErrString, text("{}")},
-	{"rawmessage", func() any { return json.RawMessage(`{"r": [1, {"k":"v"}]}`) }, wantMarshal(json.RawMessage(`{"r": [1, {"k":"v"}]}`)), func() (string, bool) { return "", false }},
+	{"map", func() any { return map[string]int{"b": 2, "a": 1} }, wantMarshal(map[string]int{"b": 2, "a": 1}), textOpen},
+	{"struct", func() any { return pair{7, "x<y>&\"z\""} }, wantMarshal(pair{7, "x<y>&\"z\""}), textOpen},
+	{"marshaler-ok", func() any { return okMarshaler{} }, wantMarshal(okMarshaler{}), textOpen},
+	{"marshaler-indented", func() any { return indentedMarshaler{} }, wantMarshal(indentedMarshaler{}), textOpen},
+	{"rawmessage-multiline", func() any { return json.RawMessage("[1,\n 2]") }, wantMarshal(json.RawMessage("[1,\n 2]")), textOpen},
+	{"marshaler-err", func() any { return errMarshaler{} }, wantErrString, textOpen},
+	{"marshaler-garbage", func() any { return garbageMarshaler{} }, wantErrString, textOpen},
+	{"rawmessage", func() any { return json.RawMessage(`{"r": [1, {"k":"v"}]}`) }, wantMarshal(json.RawMessage(`{"r": [1, {"k":"v"}]}`)), textOpen},
 	{"textmarshaler-ok", func() any { return okText{} }, wantMarshal(okText{}), text("text=\"v\" x")},
-	{"textmarshaler-err", func() any { return errText{} }, wantErrString, text("text failed k=v")},
+	{"textmarshaler-err", func() any { return errText{} }, wantErrString, textOpen},
 	{"ansi", func() any { return logger.AnsiString{Prefix: "\x1b[31m", Value: "red \"x\""} }, wantStr("red \"x\""), text("red \"x\"")},
 	{"nil", func() any { return nil }, func(v voracle.JVal) string {
 		if v.Kind != 'z' {
 			return fmt.Sprintf("got %s, want null", v)
 		}
 		return ""
-	}, text("<nil>")},
+	}, textOpen},
 	{"nil-ptr", func() any { return (*pair)(nil) }, func(v voracle.JVal) string {
 		if v.Kind != 'z' {
 			return fmt.Sprintf("got %s, want null", v)
 		}
 		return ""
-	}, text("<nil>")},
+	}, textOpen},
 	{"lv-str", func() any { return lvLeaf{"deferred"} }, wantStr("deferred"), text("deferred")},
 	{"lv-int", func() any { return lvLeaf{int64(-5)} }, wantNum("-5"), text("-5")},
-	{"lv-lv-nan", func() any { return lvLeaf{lvLeaf{math.NaN()}} }, wantErrString, text("NaN")},
+	{"lv-lv-nan", func() any { return lvLeaf{lvLeaf{math.NaN()}} }, wantErrString, textNum("lv-lv-nan", math.NaN())},
 	{"lv-err", func() any { return lvLeaf{errors.New("deferred err")} }, wantStr("deferred err"), text("deferred err")},
 }
 
@@ -203,7 +254,7 @@ func StrLeaf(s string) *Leaf {
 // ---------------------------------------------------------------- attribute trees
 
 const (
-	NLeaf = iota
+	NLeaf    = iota
 	NGroup   // direct group (inline when Key == "")
 	NLVGroup // LogValuer resolving to a group (inline when Key == "")
 )
